@@ -214,7 +214,10 @@ func Scenarios(tier string) []*Scenario {
 	if tier == "thorough" {
 		return []*Scenario{healthy, leak, dep, phase0only, altairLong, sameEpoch, eject, mass, wd, sync32, depP0, oddVec}
 	}
-	return []*Scenario{healthy, leak, dep, phase0only, mass, wd, depP0}
+	// quick tier: the full menu on the healthy history only (the leak history repeats it under other balances)
+	leak.Menu = SmallMenu
+	phase0only.Menu = SmallMenu
+	return []*Scenario{healthy, mass, dep, depP0, wd, leak, phase0only}
 }
 
 // SlotMenu: C02 — deviations that shape slot/epoch processing: gaps and registry-changing blocks.
